@@ -426,9 +426,10 @@ def dt_instant(v: Any, assume_utc: bool = False) -> Any:
     """position on the time line of a spec date/time value (years 1..9999, no 24:00:00), or None"""
     import datetime
     _, kind, year, month, day, hh, mm, ss, frac, tz = v
-    if hh == 24 or (year is not None and not 1 <= year <= 9999) or (frac and len(frac) > 7):
+    if (year is not None and not 1 <= year <= 9998) or (frac and len(frac) > 7):
         return None         # beyond the precision kept by the implementation (microseconds): not judged
-    base = datetime.datetime(year or 2000, month or 1, day or 1, hh or 0, mm or 0, ss or 0)
+    plus = datetime.timedelta(days=1 if hh == 24 and kind != 'time' else 0)
+    base = datetime.datetime(year or 2000, month or 1, day or 1, 0 if hh == 24 else (hh or 0), mm or 0, ss or 0) + plus
     off = 0
     if tz is not None and tz != 'Z':
         off = (1 if tz[0] == '+' else -1) * (int(tz[1:3]) * 60 + int(tz[4:6]))
